@@ -10,6 +10,7 @@ import (
 // H265 (C14 and the H265 instances of C08/C09).
 // opcodes: 1401 addDONL skipAggregation [[mtu annexb]...]   one H265Payloader, a history of calls
 //          1402 withDONL [payloads...]                       H265Packet.Unmarshal of each payload
+//          1406 addDONL skip [[mtu [[sc xnal]...]]...]   the lossless clause: units in, payloader, RFC 7798 reassembly, units out
 //          1405 withDONL form                                independent RFC 7798 encoder -> H265Packet, fields compared with the form
 //          1403 h   payload-header accessors of the 16-bit value h
 //          1404 b   FU-header accessors of the byte b
@@ -271,6 +272,177 @@ func h265Reassemble(donl bool, frags [][]byte) (nals [][]byte, why string) {
 	return nals, ""
 }
 
+// ---- op 1406: donl skip [[mtu [[sc xnal]...]]...] - the lossless clause, self-describing ---------
+// The NAL units of every call are given with their start-code length; the runner builds the Annex-B
+// stream, runs one payloader over the calls, parses and reassembles the packets per RFC 7798 and
+// compares with the units.  A failure is classified as a known finding only if it is *exactly* that
+// finding: the tolerant reassembly that undoes it (a DONL in every FU; a lone S-fragment for a unit of
+// MTU-1 bytes) must reproduce the units.
+
+func h265Units(calls []Tok) (streams [][]byte, mtus []int, nals [][]byte) {
+	for _, c := range calls {
+		l := tokList(c)
+		var in []byte
+		for _, u := range tokList(l[1]) {
+			ul := tokList(u)
+			if tokInt(ul[0]) == 3 {
+				in = append(in, 0, 0, 1)
+			} else {
+				in = append(in, 0, 0, 0, 1)
+			}
+			n := tokBytes(ul[1])
+			in = append(in, n...)
+			nals = append(nals, n)
+		}
+		streams = append(streams, in)
+		mtus = append(mtus, int(tokInt(l[0])))
+	}
+	return
+}
+
+// tolerant reassembly: like h265Reassemble, but (donlEveryFU) every FU carries a DONL, not only the
+// first, and (loneFU) a start fragment that is not followed by a continuation is a complete unit
+func h265ReassembleTolerant(donl bool, frags [][]byte, donlEveryFU, loneFU bool) (nals [][]byte, ok bool) {
+	var cur []byte
+	open := false
+	flush := func() {
+		if open {
+			nals = append(nals, cur)
+			cur, open = nil, false
+		}
+	}
+	for _, f := range frags {
+		if len(f) < 3 {
+			return nil, false
+		}
+		ty := (f[0] >> 1) & 0x3F
+		switch {
+		case ty == 49:
+			s, e := f[2]&0x80 != 0, f[2]&0x40 != 0
+			body := f[3:]
+			if donl && (s || donlEveryFU) {
+				if len(body) < 2 {
+					return nil, false
+				}
+				body = body[2:]
+			}
+			if s {
+				if open && !loneFU {
+					return nil, false
+				}
+				flush()
+				cur = []byte{f[0]&0x81 | (f[2]&0x3F)<<1, f[1]}
+				open = true
+			} else if !open {
+				return nil, false
+			}
+			cur = append(cur, body...)
+			if e {
+				flush()
+			}
+		case ty == 48:
+			if open && !loneFU {
+				return nil, false
+			}
+			flush()
+			off, n := 2, 0
+			for off < len(f) {
+				if donl {
+					if n == 0 {
+						off += 2
+					} else {
+						off++
+					}
+				}
+				if off+2 > len(f) {
+					return nil, false
+				}
+				sz := int(f[off])<<8 | int(f[off+1])
+				off += 2
+				if off+sz > len(f) {
+					return nil, false
+				}
+				nals = append(nals, f[off:off+sz])
+				off += sz
+				n++
+			}
+		default:
+			if open && !loneFU {
+				return nil, false
+			}
+			flush()
+			if donl {
+				if len(f) < 5 {
+					return nil, false
+				}
+				nals = append(nals, append([]byte{f[0], f[1]}, f[4:]...))
+			} else {
+				nals = append(nals, f)
+			}
+		}
+	}
+	if open && !loneFU {
+		return nil, false
+	}
+	flush()
+	return nals, true
+}
+
+func sameUnits(a, b [][]byte) bool {
+	if len(a) != len(b) {
+		return false
+	}
+	for i := range a {
+		if !bytes.Equal(a[i], b[i]) {
+			return false
+		}
+	}
+	return true
+}
+
+func runH265Lossless(donl, skip bool, calls []Tok) Outcome {
+	streams, mtus, nals := h265Units(calls)
+	hist := TList{}
+	for i := range streams {
+		hist = append(hist, TList{TI(int64(mtus[i])), TBytes(streams[i])})
+	}
+	o := runH265History(donl, skip, hist)
+	if o.Fail != "" {
+		return o
+	}
+	p := &codecs.H265Payloader{AddDONL: donl, SkipAggregation: skip}
+	var frags [][]byte
+	for i := range streams {
+		frags = append(frags, p.Payload(uint16(mtus[i]), append([]byte{}, streams[i]...))...)
+	}
+	got, why := h265Reassemble(donl, frags)
+	if why == "" && !sameUnits(got, nals) {
+		why = fmt.Sprintf("%d units reassembled, %d payloaded, or a unit differs", len(got), len(nals))
+	}
+	if why == "" {
+		return o
+	}
+	o.Fail = why
+	// is this exactly a known finding?
+	lone := false
+	for i, c := range calls {
+		for _, u := range tokList(tokList(c)[1]) {
+			n := len(tokBytes(tokList(u)[1]))
+			if (!donl && n == mtus[i]-1) || (donl && n == mtus[i]-3) {
+				lone = true
+			}
+		}
+	}
+	if t, ok := h265ReassembleTolerant(donl, frags, false, lone); lone && ok && sameUnits(t, nals) {
+		o.Known = "KF-C14-lone-fu"
+	} else if t, ok := h265ReassembleTolerant(donl, frags, donl, false); donl && ok && sameUnits(t, nals) {
+		o.Known = "KF-C14-donl-every-fu"
+	} else if t, ok := h265ReassembleTolerant(donl, frags, donl, lone); donl && lone && ok && sameUnits(t, nals) {
+		o.Known = "KF-C14-donl-every-fu" // together with KF-C14-lone-fu
+	}
+	return o
+}
+
 // ---- independent RFC 7798 encoder (parser clause of C14) -----------------------------------
 // form tokens: [0 ty layer tid donl xpayload] single | [1 layer tid donl xfirst [[dond xunit]...]] aggregation
 //              [2 layer tid s e futype donl xpayload] FU | [3 layer tid a ctype phs f0 f1 f2 y xphes xpayload] PACI
@@ -459,6 +631,8 @@ func init() {
 		switch op {
 		case 1405:
 			return runRfc7798Form(tokInt(toks[0]) != 0, tokList(toks[1]))
+		case 1406:
+			return runH265Lossless(tokInt(toks[0]) != 0, tokInt(toks[1]) != 0, tokList(toks[2]))
 		case 1401:
 			return runH265History(tokInt(toks[0]) != 0, tokInt(toks[1]) != 0, tokList(toks[2]))
 		case 1402:
@@ -495,6 +669,25 @@ func init() {
 			for b := 0; b < 256; b++ {
 				emit(1404, TI(int64(b)))
 			}
+			unitsTok := func(c *RNG, nals [][]byte) TList {
+				us := TList{}
+				for _, n := range nals {
+					us = append(us, TList{TI(int64(c.Pick(3, 4))), TBytes(n)})
+				}
+				return us
+			}
+			// the two known findings, as fixed witnesses (printed on every run, whatever the seed)
+			{
+				c := r.Fork(8800)
+				emit(1406, TI(0), TI(0), TList{TList{TI(10), unitsTok(c, [][]byte{{2, 1, 10, 11, 12, 13, 14, 15, 16}})}})
+				emit(1406, TI(1), TI(0), TList{TList{TI(8), unitsTok(c, [][]byte{genH265Nal(c, 24)})}})
+			}
+			// units longer than 65535 bytes and units cut into more than 256 fragmentation units
+			for k, cfg := range [][2]int{{1500, 70000}, {65535, 65533}, {65535, 65600}, {4, 3 + 300}, {7, 3 + 4*270}} {
+				c := r.Fork(uint64(8000 + k))
+				nals := [][]byte{genH265Nal(c, 5), genH265Nal(c, cfg[1]), genH265Nal(c, 4)}
+				emit(1406, TI(0), TI(0), TList{TList{TI(int64(cfg[0])), unitsTok(c, nals)}})
+			}
 			for i := 0; i < n; i++ {
 				c := r.Fork(uint64(i))
 				// parser clause: a form for the independent RFC 7798 encoder
@@ -507,7 +700,6 @@ func init() {
 					}
 					ncalls := 1 + c.Intn(2)
 					var cs TList
-					var all [][]byte
 					p := &codecs.H265Payloader{AddDONL: donl, SkipAggregation: skip}
 					var frags [][]byte
 					for j := 0; j < ncalls; j++ {
@@ -524,40 +716,13 @@ func init() {
 							}
 							nals = append(nals, genH265Nal(c, size))
 						}
-						all = append(all, nals...)
-						in := annexB(c, nals)
-						cs = append(cs, TList{TI(int64(mtu)), TBytes(in)})
-						frags = append(frags, p.Payload(uint16(mtu), append([]byte{}, in...))...)
+						call := TList{TI(int64(mtu)), unitsTok(c, nals)}
+						cs = append(cs, call)
+						streams, _, _ := h265Units([]Tok{call})
+						frags = append(frags, p.Payload(uint16(mtu), streams[0])...)
 					}
-					// oracle on the abstract description
-					got, why := h265Reassemble(donl, frags)
-					fail, known := "", ""
-					if why != "" {
-						fail = why
-					} else if len(got) != len(all) {
-						fail = fmt.Sprintf("%d units reassembled, %d payloaded", len(got), len(all))
-					} else {
-						for k := range got {
-							if !bytes.Equal(got[k], all[k]) {
-								fail = fmt.Sprintf("unit %d differs after reassembly", k)
-								break
-							}
-						}
-					}
-					if fail != "" {
-						if donl {
-							known = "KF-C14-donl-every-fu"
-							// only when some unit was fragmented
-						}
-						for _, nal := range all {
-							if (!donl && len(nal) == mtu-1) || (donl && len(nal) == mtu-3) {
-								known = "KF-C14-lone-fu"
-							}
-						}
-						line := CaseLine(1401, TI(b2i(donl)), TI(b2i(skip)), cs)
-						pendingFailures = append(pendingFailures, pendingFailure{line, fail, known})
-					}
-					emit(1401, TI(b2i(donl)), TI(b2i(skip)), cs)
+					// the lossless clause, self-describing (the runner holds the oracle)
+					emit(1406, TI(b2i(donl)), TI(b2i(skip)), cs)
 					ps := TList{}
 					for _, f := range frags {
 						ps = append(ps, TBytes(f))
